@@ -69,6 +69,7 @@ structure Frame where
   pc : Pc
   l1 : Lk   -- object loaded by the first `with` item (meaningful once `pc` is past `ld1`)
   l2 : Lk   -- object loaded by the second `with` item (meaningful once `pc` is past `ld2`)
+  exc : Bool := false  -- the body raised: the two `__exit__`s run while the exception propagates
   deriving DecidableEq, Repr
 
 /-- program counter inside `_process_start_wrapper` -/
@@ -103,6 +104,8 @@ inductive Act where
   | call                 -- call a synchronized function (from idle, or nested from inside one)
   | start (child : Nat)  -- call `Process.start()` on a process object (from idle)
   | adv                  -- execute the next step of the innermost activation (in the body: return)
+  | raise                -- the body of the innermost activation raises (the `with` statement still
+                         -- releases both items; the caller's body may handle it or raise in turn)
   | wr                   -- write a query to the terminal (body; no reply outstanding)
   | rd                   -- read the next reply part from the input queue (body; blocks when empty)
   | respond              -- the terminal delivers the oldest undelivered reply part (thread id ignored)
@@ -198,6 +201,14 @@ def step (s : State) (t : Nat) (a : Act) : Option State :=
             | _, _ => none
           else none
       | .sync f rest, .adv => stepFrame s t (s.proc t) f rest
+      | .sync f rest, .raise =>
+          -- like a return, but through the exception path of the `with` statement; as for a return,
+          -- the outermost activation is not left while a reply part is outstanding (an exception
+          -- that abandons a reply is outside `own_reply`, not outside `mutex`)
+          if f.pc = .cs then
+            stepFrame (setThr s t (.sync { f with exc := true } rest)) t (s.proc t)
+              { f with exc := true } rest
+          else none
       | .start pc l pass c, .adv => stepStart s t (s.proc t) pc l pass c
       | _, _ => none
     else none
